@@ -1792,6 +1792,14 @@ package rtcp
 //@   ensures accepted: err == nil && err2 == nil && specListScope(ps) ==> err3 == nil
 //@   ensures same: err == nil && err2 == nil && err3 == nil && specListScope(ps) ==> specSameWire(ps, qs)
 
+//@ func lemmaDatagram(raw []byte) (ps []Packet, err error)
+//@   lemma
+//@   trusted
+//@   bounded[C06,C01] genDatagram
+//@   ensures allornothing: err != nil ==> ps == nil
+//@   ensures nonempty: err == nil ==> len(ps) >= 1
+//@   ensures local: err == nil && specListScope(ps) ==> specFramesDecodeAlone(raw, ps)
+
 //@ func lemmaReencodeSR(raw []byte) (p SenderReport, q SenderReport, err error, err2 error, err3 error)
 //@   lemma
 //@   requires frame: len(raw) <= 4*65536
